@@ -38,7 +38,8 @@ func init() {
 		ID:    "C16",
 		Level: "exploration",
 		Rule: "each run draws ONE component (dispose.Dispose/ResourceBase/ManagerBase; dispose.ResourceManager; stream.StreamProcessor over a simnet link with a reader inside ReadPacket; memory.Storage with optional cleanup goroutine; client tunnel.Tunnel + real DefaultTunnelManager between two simnet links; server tunnel.Bridge with real TCPTunnelConnections, Start() and a cloud-control double), " +
-			"then draws 2-5 closer tasks (Close variant, start delay in scheduler yields and/or simulated time), the component's own completion path (peer EOF, reset, idle timeout by a 5 min clock advance, peer-closed notification, parent-context cancel, manager Close, target never arrives), concurrent users (packets in flight, storage operations, AddCleanHandler/Register) and 1-3 late operations after close. " +
+			"then draws 2-5 closer tasks (Close variant, start delay in scheduler yields and/or simulated time), the component's own completion path (peer EOF, reset, idle timeout by a 5 min clock advance, peer-closed notification, parent-context cancel, manager Close, target never arrives), its own START-UP racing the closers (Tunnel.Start of an already registered tunnel, Bridge.Start, StartCleanup), concurrent users (packets in flight, storage operations, AddCleanHandler/Register) and 1-3 late operations after close (incl. Start). " +
+			"The StreamProcessor is built over one connection or over separate receive/send endpoints (Close() error or Close() signature) whose Close may report an injected error; each endpoint must still be closed exactly once and the blocked reader released. The tunnel's goroutines must be gone while its manager (parent context) is still alive. " +
 			"Interleavings come from the seeded scheduler at statement granularity inside the anchored files. A run is non-trivial when two Close calls overlapped in time, or a Close overlapped an in-flight user operation / completion path of the component (measured with global event stamps); distinct = distinct schedule hash among those.",
 		Real: []string{"internal/core/dispose (Dispose, ResourceBase, ManagerBase, ResourceManager)", "internal/stream StreamProcessor (+ utils.BufferManager/BufferPool)", "internal/core/storage/memory Storage (all ops, StartCleanup/StopCleanup)",
 			"internal/client/tunnel Tunnel + DefaultTunnelManager", "internal/utils/iocopy Bidirectional + readWriteCloser", "internal/protocol/session/tunnel Bridge (Start, CopyWithControl, Close, periodic/final traffic report)", "internal/protocol/session/connection TCPTunnelConnection", "internal/stream/compression (compressed packets written while closing)"},
@@ -239,7 +240,7 @@ func c16LeakCheck(w *simrt.World, comp string, grace time.Duration) {
 	}
 	if len(left) > 0 {
 		sort.Strings(left)
-		w.Violationf("C16:"+comp+":goroutine-left-after-close", "%d goroutine(s) started by the component are still alive %v after close returned, links were closed and the context cancelled:\n%s", len(left), grace, strings.Join(left, "\n"))
+		w.Violationf("C16:"+comp+":goroutine-left-after-close", "%d goroutine(s) started by the component are still alive %v after close returned and pending I/O was unblocked:\n%s", len(left), grace, strings.Join(left, "\n"))
 	}
 }
 
@@ -529,6 +530,32 @@ func c16ResMgr(w *simrt.World) {
 
 // ---- component 1: StreamProcessor ---------------------------------------
 
+// c16endpoint is one half of a transport handed to the StreamProcessor as its reader or writer: it counts Close
+// calls and can report an error from Close (a flushing writer on a broken connection) while still closing.
+type c16endpoint struct {
+	w      *simrt.World
+	conn   *simnet.Conn
+	fail   bool
+	closes int
+}
+
+func (e *c16endpoint) Read(p []byte) (int, error)  { return e.conn.Read(p) }
+func (e *c16endpoint) Write(p []byte) (int, error) { return e.conn.Write(p) }
+func (e *c16endpoint) Close() error {
+	e.closes++
+	_ = e.conn.Close()
+	if e.fail {
+		e.w.Fault("endpoint.close-error")
+		return errors.New("injected: broken pipe while closing")
+	}
+	return nil
+}
+
+// c16endpointNoErr is the same endpoint behind the error-less Close() signature the processor also accepts.
+type c16endpointNoErr struct{ *c16endpoint }
+
+func (e c16endpointNoErr) Close() { _ = e.c16endpoint.Close() }
+
 func c16Stream(w *simrt.World) {
 	c := w.C
 	nClosers := 2 + c.Intn(4, "stream.nclosers")
@@ -546,20 +573,42 @@ func c16Stream(w *simrt.World) {
 	capacity := []int{0, 16, 4096}[c.Intn(3, "stream.cap")]
 	cancelCtx := c.Chance(1, 4, "stream.cancel-ctx")
 	cancelPlan := c16Plans(c, 1, "stream.cancel", nil, 0)[0]
+	// topology: 0 one connection is reader and writer (plain TCP); 1 separate receive and send halves whose Close returns an error
+	// value; 2 separate halves with the error-less Close() signature. Fault: an endpoint's Close reports an error (it still closes).
+	topology := []int{0, 1, 1, 2}[c.Intn(4, "stream.topology")]
+	closeFault := c.Intn(4, "stream.close-fault") // 0 none, 1 writer.Close fails, 2 reader.Close fails, 3 both
+	if topology == 0 {
+		closeFault = 0
+	}
 	nLate := 1 + c.Intn(3, "stream.nlate")
 	lateOps := make([]int, nLate)
 	for i := range lateOps {
 		lateOps[i] = c.Intn(7, "stream.late.op")
 	}
 	w.Probe("component.stream-processor")
-	w.Sample(fmt.Sprintf("StreamProcessor closers=%d peerPackets=%d partial=%d peerEnd=%d writes=%d law=%s cap=%d cancelCtx=%v late=%v", nClosers, nPkts, partial, peerEnd, nWrites, simnet.LawNames[law], capacity, cancelCtx, lateOps))
-	w.State(fmt.Sprintf("stream/p%d/part%d/end%d/w%d", nPkts, partial, peerEnd, nWrites))
+	w.Sample(fmt.Sprintf("StreamProcessor topology=%d closeFault=%d closers=%d peerPackets=%d partial=%d peerEnd=%d writes=%d law=%s cap=%d cancelCtx=%v late=%v", topology, closeFault, nClosers, nPkts, partial, peerEnd, nWrites, simnet.LawNames[law], capacity, cancelCtx, lateOps))
+	w.State(fmt.Sprintf("stream/t%d/f%d/p%d/part%d/end%d/w%d", topology, closeFault, nPkts, partial, peerEnd, nWrites))
 
 	ctx, cancel := context.WithCancel(w.Ctx)
 	defer cancel()
 	a, b := simnet.NewLink(w, simnet.LinkConfig{NameA: "sp", NameB: "peer", LawAB: law, LawBA: law, Capacity: capacity})
-	sp := stream.NewStreamProcessor(a, a, ctx)
-	peerSP := stream.NewStreamProcessor(b, b, w.Ctx)
+	rdConn, wrConn, peerWr, peerRd := a, a, b, b // the processor reads rdConn and writes wrConn; the peer writes peerWr and reads peerRd
+	var rdEnd, wrEnd *c16endpoint
+	var sp *stream.StreamProcessor
+	if topology == 0 {
+		sp = stream.NewStreamProcessor(a, a, ctx)
+	} else {
+		wrConn, peerRd = simnet.NewLink(w, simnet.LinkConfig{NameA: "sp-send", NameB: "peer-recv", LawAB: law, LawBA: law, Capacity: capacity})
+		rdEnd = &c16endpoint{w: w, conn: rdConn, fail: closeFault&2 != 0}
+		wrEnd = &c16endpoint{w: w, conn: wrConn, fail: closeFault&1 != 0}
+		if topology == 1 {
+			sp = stream.NewStreamProcessor(rdEnd, wrEnd, ctx)
+		} else {
+			sp = stream.NewStreamProcessor(c16endpointNoErr{rdEnd}, c16endpointNoErr{wrEnd}, ctx)
+		}
+		w.Probe("stream.split-endpoints")
+	}
+	peerSP := stream.NewStreamProcessor(peerRd, peerWr, w.Ctx)
 	handlerRuns := 0
 	sp.AddCleanHandler(func() error { handlerRuns++; w.Yield("c16.handler"); return nil })
 
@@ -619,26 +668,26 @@ func c16Stream(w *simrt.World) {
 		}
 		switch partial {
 		case 1:
-			b.Write([]byte{byte(packet.TunnelData)})
+			peerWr.Write([]byte{byte(packet.TunnelData)})
 		case 2:
-			b.Write([]byte{byte(packet.TunnelData), 0, 0, 0, 10})
+			peerWr.Write([]byte{byte(packet.TunnelData), 0, 0, 0, 10})
 		case 3:
-			b.Write([]byte{byte(packet.TunnelData), 0, 0, 0, 10, 'h', 'a', 'l', 'f'})
+			peerWr.Write([]byte{byte(packet.TunnelData), 0, 0, 0, 10, 'h', 'a', 'l', 'f'})
 		}
 		switch peerEnd {
 		case 1:
-			b.Close()
+			peerWr.Close()
 		case 2:
-			b.Reset()
+			peerWr.Reset()
 			w.Fault("net.reset")
 		case 3:
-			b.CloseWrite()
+			peerWr.CloseWrite()
 		}
 	})
 	peerDrain := w.Spawn("peer-drain", func() {
 		buf := make([]byte, 4096)
 		for {
-			if _, err := b.Read(buf); err != nil {
+			if _, err := peerRd.Read(buf); err != nil {
 				return
 			}
 		}
@@ -673,6 +722,20 @@ func c16Stream(w *simrt.World) {
 		}
 		w.Violationf("C16:stream:"+cl, "clean handler ran %d times after %d concurrent closers returned", handlerRuns, nClosers)
 	}
+	// every cleanup action exactly once: with separate endpoints each of them is closed once, whatever the other one's Close reported
+	if topology != 0 {
+		for _, e := range []struct {
+			name string
+			ep   *c16endpoint
+		}{{"reader", rdEnd}, {"writer", wrEnd}} {
+			switch {
+			case e.ep.closes == 0:
+				w.Violationf("C16:stream:endpoint-never-closed", "the processor's %s was never closed although %d Close calls returned (topology=%d, injected close errors: writer=%v reader=%v)", e.name, nClosers, topology, wrEnd.fail, rdEnd.fail)
+			case e.ep.closes > 1:
+				w.Violationf("C16:stream:endpoint-closed-more-than-once", "the processor's %s was closed %d times by %d concurrent closers", e.name, e.ep.closes, nClosers)
+			}
+		}
+	}
 	if spans.overlap("closer", "closer") {
 		w.Nontrivial()
 		w.Probe("stream.closers-overlapped")
@@ -683,7 +746,11 @@ func c16Stream(w *simrt.World) {
 	}
 	// close has returned: the reader blocked in ReadPacket must be released (the processor owns and closes its reader)
 	if !c16Bounded(w, reader, 2*time.Second) {
-		w.Violationf("C16:stream:reader-still-blocked-after-close", "ReadPacket has not returned 2s after Close returned (conn closed=%v)", a.Closed())
+		w.Violationf("C16:stream:reader-still-blocked-after-close", "ReadPacket has not returned 2s after Close returned (topology=%d closeFault=%d, reader's connection closed=%v)", topology, closeFault, rdConn.Closed())
+		// release it by hand: it holds the read lock, and the late operations below would wait for it forever
+		peerWr.Close()
+		rdConn.Close()
+		reader.Wait()
 	} else {
 		_ = readErr
 		if got > 0 {
@@ -727,7 +794,8 @@ func c16Stream(w *simrt.World) {
 		w.Probe("stream.late-handler-ran")
 	}
 	// unblock everything and check for leftovers
-	b.Close()
+	peerWr.Close()
+	peerRd.Close()
 	peerSP.Close()
 	cancel()
 	peer.Wait()
@@ -815,7 +883,7 @@ func c16Memory(w *simrt.World) {
 	for i := range userOps {
 		k := 1 + c.Intn(5, "mem.user.nops")
 		for j := 0; j < k; j++ {
-			userOps[i] = append(userOps[i], c.Intn(27, "mem.user.op")) // no Start/StopCleanup/Watch while racing
+			userOps[i] = append(userOps[i], c.Intn(29, "mem.user.op")) // incl. StartCleanup/StopCleanup racing Close (start-up concurrent with shutdown); Watch (unlocked read) only as a late operation
 		}
 	}
 	userPlans := c16Plans(c, nUsers, "mem.user", nil, 0)
@@ -955,7 +1023,12 @@ func (cl *c16client) SendTunnelCloseNotify(target int64, tunnelID, mappingID, re
 func c16Tunnel(w *simrt.World) {
 	c := w.C
 	role := clienttunnel.TunnelRole(c.Intn(2, "tun.role"))
-	started := !c.Chance(1, 8, "tun.never-started")
+	// start mode: Start() returned before any closer exists / Start() races the closers (the tunnel is
+	// registered with its manager before it is started, so notifications can close it during start-up) / never started
+	startMode := []int{0, 0, 0, 1, 1, 0, 1, 2}[c.Intn(8, "tun.start-mode")]
+	started := startMode == 0
+	startPlan := c16Plans(c, 1, "tun.start", nil, 0)[0]
+	lateStart := c.Chance(1, 3, "tun.late-start")
 	nClosers := 2 + c.Intn(4, "tun.nclosers")
 	completion := c.Intn(6, "tun.completion") // 0 none, 1 app EOF, 2 server EOF, 3 idle timeout, 4 reset, 5 app half-close then server EOF
 	sleeps := c16Quiesce
@@ -974,8 +1047,8 @@ func c16Tunnel(w *simrt.World) {
 		vs = append(vs, p.variant)
 	}
 	w.Probe("component.client-tunnel")
-	w.Sample(fmt.Sprintf("client Tunnel role=%v started=%v closers(variants)=%v completion=%d appChunks=%d srvChunks=%d cancelMgrCtx=%v target=%d", role, started, vs, completion, nApp, nSrv, cancelMgr, targetClient))
-	w.State(fmt.Sprintf("tunnel/r%d/s%v/comp%d/c%d", role, started, completion, nClosers))
+	w.Sample(fmt.Sprintf("client Tunnel role=%v startMode=%d(0 before closers,1 racing closers,2 never) lateStart=%v started=%v closers(variants)=%v completion=%d appChunks=%d srvChunks=%d cancelMgrCtx=%v target=%d", role, startMode, lateStart, started, vs, completion, nApp, nSrv, cancelMgr, targetClient))
+	w.State(fmt.Sprintf("tunnel/r%d/s%d/comp%d/c%d", role, startMode, completion, nClosers))
 
 	mgrCtx, mgrCancel := context.WithCancel(w.Ctx)
 	defer mgrCancel()
@@ -1069,6 +1142,19 @@ func c16Tunnel(w *simrt.World) {
 	if cancelMgr {
 		side = append(side, c16Actor(w, spans, "cancel", cancelPlan, func() { mgrCancel() }))
 	}
+	var startErr error
+	if startMode == 1 {
+		// the component's own start-up is one more thing a Close can overlap
+		side = append(side, c16Actor(w, spans, "user.start", startPlan, func() {
+			c16Guard(w, "C16:tunnel:panic:Start-racing-Close", func() { startErr = t.Start() })
+			if startErr == nil {
+				started = true
+				w.Probe("tunnel.concurrent-start-succeeded")
+			} else {
+				w.Probe("tunnel.concurrent-start-refused")
+			}
+		}))
+	}
 	var closers []*simrt.Task
 	for i := 0; i < nClosers; i++ {
 		p := plans[i]
@@ -1103,6 +1189,10 @@ func c16Tunnel(w *simrt.World) {
 		w.Nontrivial()
 		w.Probe("tunnel.close-overlapped-completion")
 	}
+	if spans.overlap("closer", "user.start") {
+		w.Nontrivial()
+		w.Probe("tunnel.close-overlapped-start")
+	}
 	if completion == 3 {
 		w.Probe("tunnel.idle-timeout-window")
 	}
@@ -1134,16 +1224,31 @@ func c16Tunnel(w *simrt.World) {
 	if local.Closes() == 0 || rwcCloses == 0 {
 		w.Violationf("C16:tunnel:connection-not-closed", "after close: local conn closed %d times, tunnel conn close func ran %d times", local.Closes(), rwcCloses)
 	}
-	// unblock pending I/O of the peers and end the manager
+	// late user: Start on a tunnel whose Close has completed must fail cleanly and start nothing
+	if lateStart {
+		var lerr error
+		c16Guard(w, "C16:tunnel:panic-after-close:Start", func() { lerr = t.Start() })
+		if lerr == nil {
+			w.Violationf("C16:tunnel:late-Start-succeeded", "Start() on a closed tunnel (state=%d) returned no error", t.GetState())
+		}
+		w.Probe("tunnel.late-start")
+	}
+	// unblock pending I/O of the peers. The tunnel's own goroutines must be gone now, while its manager (the parent
+	// context) is still alive: the tunnel is the closed component, not the manager
 	app.Close()
 	srv.Close()
-	_ = mgr.Close()
-	mgrCancel()
 	appT.Wait()
 	srvT.Wait()
 	appDrain.Wait()
 	srvDrain.Wait()
 	c16LeakCheck(w, "tunnel", 2*time.Second)
+	if t.GetState() != clienttunnel.TunnelStateClosed {
+		w.Violationf("C16:tunnel:not-closed-after-close", "state=%d after every Close call returned and a late Start", t.GetState())
+	}
+	// then end the manager
+	_ = mgr.Close()
+	mgrCancel()
+	c16LeakCheck(w, "tunnel-manager", time.Second)
 	// traffic totals: the one report must carry what was actually moved
 	if started && onClosed >= 1 {
 		sent, recv := tun.BytesWritten(), local.BytesWritten()
